@@ -70,6 +70,8 @@ class Env:
             self.kinds.append(kind)
         else:
             idx = -1
+        if self.sched is not None:
+            info['tid'] = self.sched.tid
         self.stamp('begin', kind, idx, self.stage, info)
         if self.sched is not None:
             self.sched.point(kind + ':begin')
@@ -692,6 +694,7 @@ class FakeS3:
         self.bad = None
         self.deleted = []
         self.part_attempts = {}
+        self.body_sizes = []       # bytes of every fully received request body, in completion order
 
     # -- plumbing
     def _begin(self, op, kw):
@@ -762,6 +765,7 @@ class FakeS3:
         idx = self._begin('put_object', kw)
         got = self._send_body(kw['Body'], 'PutObject')
         self.objects[kw['Key']] = got
+        self.body_sizes.append(sum(len(b) for b in got))
         self._end('put_object', idx)
         return {'ETag': 'etag-put'}
 
@@ -814,6 +818,7 @@ class FakeS3:
             if 'ChecksumAlgorithm' in kw:
                 resp['Checksum' + kw['ChecksumAlgorithm'].upper()] = 'cksum-%s-%s' % (num, att)
             u['parts'][num] = (got, resp)
+            self.body_sizes.append(sum(len(b) for b in got))
             self._end('upload_part', idx)
         finally:
             u['inflight'] -= 1
